@@ -199,6 +199,14 @@ def concurrently(world, seed, p, run_a, run_b, summarize):
     """Two invocations at the same time on one disk: run_a here, run_b in a forked partner process; their
     file-system events interleave as the seeded token schedule decides (world.Coord).  Returns
     (outcome of a, summary of b)."""
+    world._note_threads()
+    if world.threads_ever:
+        # forking a process whose code runs threads is not simulated (a forked child inherits locks held by
+        # threads that do not exist in it): the two invocations run one after the other instead
+        world.probe("concurrent-pair-run-sequentially-because-the-code-starts-threads")
+        res_b = summarize(run_b())
+        res_b["switches"] = 0
+        return run_a(), res_b
     coord = world.fork_partner(seed, p)
     if coord.role == "B":
         summ = {"status": "harness-exc", "error": "partner did not run"}
